@@ -61,6 +61,7 @@ var registry = map[string]runner{
 	"C10/malformed":    w10.Malformed,
 	"C10/child":        w10.Child,
 	"C10/decgrid":      w10.DecGrid,
+	"C10/decimals":     w10.Decimals,
 	"C11/dag":          w11.Run,
 	"C05/conflict":     w05.Run,
 	"C05/generated":    w05.Run,
@@ -77,6 +78,7 @@ var registry = map[string]runner{
 	"C07/tree":         wtree.Run,
 	"C09/tree":         wtree.Run,
 	"C09/longchains":   w09.Run,
+	"C09/unions":       w09.Unions,
 	"C12/tree":         wtree.Run,
 	"C17/tree":         wtree.Run,
 	"C17/revisions":    w13.Revisions,
